@@ -13,6 +13,7 @@ import (
 	"math/big"
 	"os"
 	"os/exec"
+	"sort"
 	"strconv"
 	"strings"
 	"sync"
@@ -223,6 +224,7 @@ type opPlan struct {
 	Cancelled bool // the context handed to Start is already cancelled
 	Noise     int  // start options that must not matter: span kind, attributes, links, timestamp (bit set)
 	Tracer    int  // which of the provider's tracers
+	EndFirst  bool // End the span right after Start: children started later from its context have an ENDED parent
 	EndTwice  bool
 }
 type plan struct {
@@ -275,6 +277,7 @@ type progObs struct {
 	Exp1      []string
 	Exp2      []string
 	Calls     []callObs
+	recBefore []bool // IsRecording observed before an early End
 	Problems  []string
 	GenOutrun bool
 	Consumed  int
@@ -410,6 +413,12 @@ func runProgram(s *samp, p plan) progObs {
 		c, sp := trs[op.Tracer%2].Start(ctx, "s", so...)
 		ctxs = append(ctxs, c)
 		spans = append(spans, sp)
+		if op.EndFirst {
+			o.recBefore = append(o.recBefore, sp.IsRecording())
+			sp.End()
+		} else {
+			o.recBefore = append(o.recBefore, false)
+		}
 		if !trace.SpanContextFromContext(c).Equal(sp.SpanContext()) {
 			o.Problems = append(o.Problems, "the returned context does not hold the started span")
 		}
@@ -419,6 +428,9 @@ func runProgram(s *samp, p plan) progObs {
 		tid, sid := sc.TraceID(), sc.SpanID()
 		so := spanObs{TID: hex.EncodeToString(tid[:]), SID: hex.EncodeToString(sid[:]), Flags: byte(sc.TraceFlags()),
 			TS: sc.TraceState().String(), Remote: sc.IsRemote(), Recording: sp.IsRecording()}
+		if p.Ops[i].EndFirst {
+			so.Recording = o.recBefore[i]
+		}
 		if s != nil && !p.Plain && i < len(rec.answers) {
 			a := rec.answers[i]
 			so.HasAns, so.Dec, so.AnsTS, so.Path = true, int(a.d), a.ts, a.path
@@ -437,7 +449,9 @@ func runProgram(s *samp, p plan) progObs {
 		o.Problems = append(o.Problems, fmt.Sprintf("%d Starts but the sampler was asked %d times", len(spans), len(rec.answers)))
 	}
 	for i, sp := range spans {
-		sp.End()
+		if !p.Ops[i].EndFirst {
+			sp.End()
+		}
 		if p.Ops[i].EndTwice {
 			sp.End() // a second End must not export the span again
 		}
@@ -449,6 +463,34 @@ func runProgram(s *samp, p plan) progObs {
 	}
 	_ = tp.ForceFlush(bg)
 	_ = tp.Shutdown(bg)
+	// exporter contents in start order (spans ended early are exported early; the order is not a clause of the property)
+	reorder := func(ids []string) []string {
+		pos := map[string][]int{} // start indices of the spans carrying an id (ids may repeat under a scripted generator)
+		for i, sp := range spans {
+			sid := sp.SpanContext().SpanID()
+			h := hex.EncodeToString(sid[:])
+			pos[h] = append(pos[h], i)
+		}
+		type ent struct {
+			id  string
+			idx int
+		}
+		var es []ent
+		for _, id := range ids {
+			idx := len(spans)
+			if q := pos[id]; len(q) > 0 {
+				idx, pos[id] = q[0], q[1:]
+			}
+			es = append(es, ent{id, idx})
+		}
+		sort.SliceStable(es, func(a, b int) bool { return es[a].idx < es[b].idx })
+		out := make([]string, 0, len(es))
+		for _, e := range es {
+			out = append(out, e.id)
+		}
+		return out
+	}
+	e1.ids, e2.ids = reorder(e1.ids), reorder(e2.ids)
 	o.Exp1, o.Exp2, o.Calls, o.GenOutrun = e1.ids, e2.ids, gen.calls, gen.out
 	if src != nil {
 		o.Consumed = src.n
@@ -730,6 +772,7 @@ func genPlan(r *vgen.Rand, n int, ratios []uint64) plan {
 		}
 		op.Tracer = r.Intn(2)
 		op.EndTwice = r.Chance(1, 6)
+		op.EndFirst = r.Chance(1, 4)
 		p.Ops = append(p.Ops, op)
 		t := tidWith(r, genCoord(r, ratios...), r.U64())
 		sid := make([]byte, 8)
@@ -770,6 +813,9 @@ func (p plan) describe() []string {
 		}
 		if op.EndTwice {
 			s += " +end-twice"
+		}
+		if op.EndFirst {
+			s += " +ended-before-the-next-start"
 		}
 		if i < len(p.Gens) {
 			s += fmt.Sprintf(" gen=%s/%s", p.Gens[i][0], p.Gens[i][1])
